@@ -329,6 +329,7 @@ func TestC14Matrix(t *testing.T) {
 // cutting at a length threshold
 
 type CutCase struct {
+	Ops  []ops.Op  `json:"ops,omitempty"` // edit history applied to the indexed tree before the cut (tips grafted, pruned, copies ...): the oracle reads the edited tree back
 	Tree *ref.Node `json:"tree"`
 	Thr  float64   `json:"thr"`
 	CLI  bool      `json:"cli,omitempty"`
@@ -381,6 +382,11 @@ func genCut(t *rapid.T, thorough bool) CutCase {
 	if rapid.IntRange(0, 2).Draw(t, "mem") == 0 {
 		cc.Mem = rapid.IntRange(1, 50).Draw(t, "memsel")
 	}
+	if rapid.IntRange(0, 3).Draw(t, "history") == 0 {
+		for i, n := 0, rapid.IntRange(1, 4).Draw(t, "nops"); i < n; i++ {
+			cc.Ops = append(cc.Ops, ops.GenOp(t, historyKinds))
+		}
+	}
 	return cc
 }
 
@@ -432,6 +438,28 @@ func checkCut(c CutCase) error {
 	}
 	if err := gt.RerootInMemory(t, c.Mem); err != nil {
 		return err
+	}
+	if len(c.Ops) > 0 {
+		if err := t.ReinitIndexes(); err != nil {
+			return err
+		}
+		t2, m2, ok, herr := ops.Replay(t, c.Ops)
+		if herr != nil {
+			return herr
+		}
+		if !ok {
+			return nil // the history left no tree to cut
+		}
+		absent := false
+		m2.Walk(func(x, p *ref.Node) {
+			if p != nil && x.Len == nil {
+				absent = true
+			}
+		})
+		if absent && c.Thr <= 0 {
+			return nil // see genCut: undocumented combination
+		}
+		t, c.Tree, c.CLI = t2, m2, false
 	}
 	want := components(c.Tree, c.Thr)
 	ctx := fmt.Sprintf("\n tree %s threshold %v", ref.Write(c.Tree), c.Thr)
@@ -498,7 +526,7 @@ func checkCut(c CutCase) error {
 func TestC14Cut(t *testing.T) {
 	h.Run(t, h.Spec[CutCase]{
 		Property: "C14", Name: "cut", Quick: 16000, Thorough: 800000,
-		Rule: "trees (2..14 tips, 5% up to 40/200; lengths none/all/mixed, zeros and ties frequent) x thresholds drawn from {a present length (half of the cases), midpoint of two, above the maximum, half the minimum}; strictly positive when a branch has no length; oracle = union-find components over branches with length < threshold (absent = 0); set of groups equal, each tip in exactly one group, no empty group, Tips() sorted; 5% of the cases through `gotree brlen cut -l`; non-trivial = >= 5 tips and between 2 and n-1 groups",
+		Rule: "trees (2..14 tips, 5% up to 40/200; lengths none/all/mixed, zeros and ties frequent) x thresholds drawn from {a present length (half of the cases), midpoint of two, above the maximum, half the minimum}; strictly positive when a branch has no length; one case in four cuts a tree that was indexed and then edited by 1-4 operations (graft, insertion of identical tips, prune, copy, re-root ...), judged on the edited tree read back; oracle = union-find components over branches with length < threshold (absent = 0); set of groups equal, each tip in exactly one group, no empty group, Tips() sorted; 5% of the cases through `gotree brlen cut -l`; non-trivial = >= 5 tips and between 2 and n-1 groups",
 		Gen: genCut, Check: checkCut,
 		Classify: func(c CutCase) (bool, []string) {
 			g := components(c.Tree, c.Thr)
